@@ -28,7 +28,7 @@ Obs0 == [sent |-> [i \in 1..NIn |-> <<>>], pend |-> [i \in 1..NIn |-> <<>>], clo
          quiet |-> TRUE, outs |-> Outs]
 
 \* the command of a window (nothing happens for a skipped one)
-ApplyCmd(o0, c, skipped) ==
+ApplyOne(o0, c, skipped) ==
   IF skipped THEN o0 ELSE
   LET o == IF c.c \in {"advance", "init"} THEN o0 ELSE [o0 EXCEPT !.lastEnvAt = o0.now] IN
   CASE c.c = "send" -> [o EXCEPT !.pend[c.i + 1] = <<c.v>>]
@@ -38,6 +38,10 @@ ApplyCmd(o0, c, skipped) ==
                                    !.gotAtCancel = [x \in Outs |-> Len(o.got[x])]]
     [] c.c = "release" -> [o EXCEPT !.pending = @ - 1]
     [] OTHER -> o
+\* a burst is a sequence of commands issued back to back (no quiescence in between)
+RECURSIVE ApplySub(_,_)
+ApplySub(o, cs) == IF cs = <<>> THEN o ELSE ApplySub(ApplyOne(o, Head(cs), FALSE), Tail(cs))
+ApplyCmd(o, c, skipped) == IF c.c = "burst" THEN (IF skipped THEN o ELSE ApplySub(o, c.sub)) ELSE ApplyOne(o, c, skipped)
 \* one completion observed in the window
 ApplyEv(o, e) ==
   CASE e.e = "sent" -> [o EXCEPT !.sent[e.i + 1] = Append(@, e.v), !.sentAt[e.i + 1] = Append(@, e.at), !.pend[e.i + 1] = <<>>]
